@@ -1258,12 +1258,16 @@ where
 
         if bit_index + self.bit_width <= W::BITS {
             // this is consistent
+            #[cfg(sux_verif)]
+            crate::verif::atomic_pre(crate::verif::BF_LOAD, word_index);
             let mut current = bits.get_unchecked(word_index).load(order);
             loop {
                 let mut new = current;
                 new &= !(self.mask << bit_index);
                 new |= value << bit_index;
 
+                #[cfg(sux_verif)]
+                crate::verif::atomic_pre(crate::verif::BF_CAS, word_index);
                 match bits
                     .get_unchecked(word_index)
                     .compare_exchange(current, new, order, order)
@@ -1273,6 +1277,8 @@ where
                 }
             }
         } else {
+            #[cfg(sux_verif)]
+            crate::verif::atomic_pre(crate::verif::BF_LOAD, word_index);
             let mut word = bits.get_unchecked(word_index).load(order);
             // try to wait for the other thread to finish
             fence(Ordering::Acquire);
@@ -1281,6 +1287,8 @@ where
                 new &= (W::ONE << bit_index) - W::ONE;
                 new |= value << bit_index;
 
+                #[cfg(sux_verif)]
+                crate::verif::atomic_pre(crate::verif::BF_CAS, word_index);
                 match bits
                     .get_unchecked(word_index)
                     .compare_exchange(word, new, order, order)
@@ -1298,6 +1306,8 @@ where
             // should try to syncronize the threads as much as possible
             compiler_fence(Ordering::SeqCst);
 
+            #[cfg(sux_verif)]
+            crate::verif::atomic_pre(crate::verif::BF_LOAD, word_index + 1);
             let mut word = bits.get_unchecked(word_index + 1).load(order);
             fence(Ordering::Acquire);
             loop {
@@ -1305,6 +1315,8 @@ where
                 new &= !(self.mask >> (W::BITS - bit_index));
                 new |= value >> (W::BITS - bit_index);
 
+                #[cfg(sux_verif)]
+                crate::verif::atomic_pre(crate::verif::BF_CAS, word_index + 1);
                 match bits
                     .get_unchecked(word_index + 1)
                     .compare_exchange(word, new, order, order)
